@@ -186,13 +186,16 @@ fn main() {
                 println!("{}", so.lines().last().unwrap_or("NO-WITNESS"));
                 return;
             }
-            let r = match id {
+            let r = witness::quiet(|| match id {
                 "C05" => witness::c05(), "C19" => witness::c19(), "C04" => witness::c04(), "C10" => witness::c10(), "C16" => witness::c16(),
                 "C01" | "C02" | "C18" => witness::c01_c02_c18(), "C03" | "C11" | "C20x" => witness::c03_c11_c20(), "C06" => witness::c06(),
                 "C07" => witness::c07(), "C09" => witness::c09(), "C15" => witness::c15(), "C17" => witness::c17(), "C13" => witness::c13(),
                 "C12" => witness::c12(), "C20" => witness::c20(),
-                _ => { println!("NO-WITNESS no search registered for {id}"); return; }
-            };
+                _ => Err(format!("NO-SEARCH {id}")),
+            });
+            // a panic of the library on an input of the property's domain is a failing input
+            let r = match r { Ok(r) => r, Err(p) => Err(format!("the library panicked (`{p}`) while {}", witness::CONTEXT.lock().map(|g| g.clone()).unwrap_or_default())) };
+            if let Err(m) = &r { if m.starts_with("NO-SEARCH") { println!("NO-WITNESS no search registered for {id}"); return; } }
             match r { Ok(n) => println!("NO-WITNESS evaluated={n}"), Err(m) => { println!("WITNESS {m}"); std::process::exit(1); } }
         }
         Some("witness-child") => {
